@@ -336,4 +336,7 @@ def replay(ctx, payload):
         g1 = common.load_grammar(d, skip_brute=True)
         if len(stream_groups(g1, False)) != len(stream_groups(g0, True)):
             out.append({'kind': 'skip-brute-stream'})
+        g2 = common.load_grammar(d, skip_case=True)
+        if any(t[0] != 'C' and g0.grammar[t] != g2.grammar.get(t) for t in g0.grammar):
+            out.append({'kind': 'all-lower-changes-other-lists'})
     return out
